@@ -519,6 +519,16 @@ func hoffmanClass(cls string, psize int64, torrent []byte) http.HandlerFunc {
 			hj("HTTP/1.1 200 OK\r\nContent-Length: banana\r\nConnection: close\r\n\r\n", take(n))
 		case "h-reset":
 			hj("", nil)
+		case "h-whole-piece": // a seed that ignores "ranges" and always sends the piece, honestly announced
+			whole := torrent[piece*psize:]
+			if int64(len(whole)) > psize {
+				whole = whole[:psize]
+			}
+			w.Header().Set("Content-Length", fmt.Sprint(len(whole)))
+			w.Write(whole)
+		case "h-whole-torrent": // ... or the whole content
+			w.Header().Set("Content-Length", fmt.Sprint(len(torrent)))
+			w.Write(torrent)
 		default:
 			w.WriteHeader(500)
 		}
